@@ -1,4 +1,5 @@
 """C02 -- sparse cases run only what was asked and leave every other slot missing."""
+import json
 import os
 import shutil
 
@@ -79,6 +80,66 @@ def overlap_stream(c, tmp, n):
     return len(bad)
 
 
+MIXED = [1, 2, 7, "auto", "none"]
+
+
+def mixed_fn(k, b, z=0):
+    return 1000.0 * MIXED.index(k) + 10 * b + z
+
+
+def mixed_values_stream(c, n):
+    """Cases in which one argument takes values of different kinds (numbers and strings: Python cannot order them,
+    the axis keeps whatever order the set gives): every requested setting is still called once, its result sits in
+    the grid, every other slot is a placeholder (oracle only: the model's axes are sorted)."""
+    import math
+    import xyzpy
+    for i in range(n):
+        rng = c.rng
+        ks = rng.sample(MIXED, rng.randint(2, 4))
+        if all(isinstance(k, int) for k in ks) or all(isinstance(k, str) for k in ks):
+            ks = [1, "auto"] + ks[:1]
+        cases = []
+        for _ in range(rng.randint(2, 5)):
+            cs = {"k": rng.choice(ks), "b": rng.randint(0, 3)}
+            if cs not in cases:
+                cases.append(cs)
+        sub = {"z": [0, 1]} if rng.random() < 0.4 else None
+        calls = []
+
+        def fn(**kw):
+            calls.append(dict(kw))
+            return mixed_fn(**kw)
+        rep = {"stream": "mixed-kind-values", "cases": [[str(cs["k"]), cs["b"]] for cs in cases], "sub_grid": bool(sub)}
+        try:
+            out = xyzpy.combo_runner(fn, sub, cases=[dict(cs) for cs in cases], verbosity=0,
+                                     shuffle=rng.choice([False, True]))
+        except Exception as e:  # noqa
+            c.case(json.dumps(rep, sort_keys=True), nontrivial=True)
+            c.violation("raised", f"{type(e).__name__}: {str(e)[:150]}", rep)
+            continue
+        c.case(json.dumps(rep, sort_keys=True), nontrivial=True, sample=rep if i % 8 == 0 else None)
+        c.count("stream", "mixed-kind-values")
+        want = sorted(mixed_fn(**cs, **({"z": z} if sub else {})) for cs in cases for z in ([0, 1] if sub else [0]))
+        leaves = []
+
+        def walk(x, depth):
+            if depth == 0:
+                leaves.append(x)
+            else:
+                for y in x:
+                    walk(y, depth - 1)
+        walk(out, 3 if sub else 2)
+        got = sorted(x for x in leaves if not (isinstance(x, float) and math.isnan(x)))
+        nk, nb = len({cs["k"] for cs in cases}), len({cs["b"] for cs in cases})
+        if len(calls) != len(want):
+            c.violation("calls-not-exactly-once", f"{len(want)} settings requested, {len(calls)} calls", rep)
+        elif len(leaves) != nk * nb * (2 if sub else 1):
+            c.violation("grid-shape", f"{len(leaves)} slots for {nk} x {nb} values", rep)
+        elif got != want:
+            c.violation("wrong-slot", f"the grid holds the results {got}, the requested settings give {want} "
+                                      f"(results missing from the grid or duplicated)", rep)
+
+
 def run(tier, seed):
     c = core.Check("C02", tier, seed)
     gen_st = core.regen()
@@ -93,6 +154,7 @@ def run(tier, seed):
     try:
         nbad = S.run_stream(c, gen("thorough" if c.broken else tier, c.rng), tmp, "cases")
         nbad += overlap_stream(c, tmp, 30 if tier == "quick" else 200)
+        mixed_values_stream(c, 20 if tier == "quick" and not c.broken else 150)
         c.cov["disagreements_checked"] = nbad
     finally:
         R.shutdown_loky()
